@@ -46,7 +46,7 @@ Problems(e) ==
   (IF Bound(e) THEN {} ELSE {"binding"}) \cup
   (IF NoPanicX(e.op, e.r) THEN {} ELSE {"panic"}) \cup
   (IF ~NoPanicX(e.op, e.r) \/ OpOK(e.op, e.a, e.r) THEN {} ELSE {"result"}) \cup
-  (IF TypeOK THEN {} ELSE {"range"})
+  (IF TypeOK /\ (~NoPanicX(e.op, e.r) \/ ValueInRangeX(e.op, e.a, e.r)) THEN {} ELSE {"range"})
 
 Judge == sescursor = 1 \/
          LET e == Rec[sescursor]  bad == Problems(e) IN
